@@ -100,7 +100,8 @@ CLAIMS = {
     'C18': {
         'text': 'Decides the reference-counting typestate of MTBDD nodes (28 obligations): owned roots at every private-constructor call site, increment in copy/value constructors, operator= (self test, release before '
                 're-seat, increment after), destructor releases, spawnInternal references both children and enters the table, disposeOf* erase the table entry and release each child exactly once before deletion, '
-                'disposal only when the decrement returned 0, and who-may-call for the decrement/delete primitives. Collection of orphan intermediate nodes is not decided.',
+                'disposal only when the decrement returned 0, and who-may-call for the decrement/delete primitives; the apply functors\' memo tables, which hold raw uncounted node pointers, are cleared '
+                'on every path before each application (clause C3 of CANON), so no table entry outlives the nodes it names. Collection of orphan intermediate nodes is not decided.',
         'note': 'trusted: clang 14 AST/CFG, exporter',
     },
     'C19': {
